@@ -38,6 +38,9 @@ def run(tier):
     tiny = [f for f in allf if len(f) <= 4]
     spine = [f for d in (9, 10) for f in F.spines(d, 0)]
     instrcheck.sweep(res, [(c01.gen, allf, variants(), "spy", None),
+                           # a user signal whose name ends like the built-in ones
+                           (instrcheck._ren_c01, tiny, variants()[:3], "spy", None),
+                           (instrcheck._ren_c02, tiny, variants()[:3], "spy", None),
                            (c02.gen, allf, variants(), "spy", None),
                            (c03.gen, allf, variants(), "spy", None),
                            (instrcheck.gen_act, small, variants()[1:], "spy", None),
